@@ -227,3 +227,28 @@ def consistent(draw, max_classes=3, max_inst=4, max_props=3, bnode_classes=False
     triples = [triples[i] for i in perm]
     return {"triples": triples, "classes": [c[1] for c in classes], "inst_prop": RDF_TYPE,
             "members": {classes[j][1]: [n[1] for n in inst[j]] for j in range(n_classes)}}
+
+
+NS_DICT_CHOICES = [
+    {"http://ex.org/": "ex", "http://www.w3.org/2001/XMLSchema#": "xsd", "http://www.w3.org/1999/02/22-rdf-syntax-ns#": "rdf"},
+    {"http://ex.org/ns/": "ns", "http://other.org/v#": "v", "https://data.example/": "d"},
+    {"http://ex.org/": "", "http://ex.org/ns/": "weso-s"},
+]
+
+
+@st.composite
+def harmless_extras(draw):
+    """options that must not change any count, key or cardinality (they only change spelling / add annotations)"""
+    cfg = {}
+    k = draw(st.integers(0, 11))
+    if k == 0:
+        cfg["namespaces_dict"] = draw(st.sampled_from(NS_DICT_CHOICES))
+    elif k == 1:
+        cfg["detect_minimal_iri"] = True
+    elif k == 2:
+        cfg["disable_or_statements"] = False
+        if draw(st.booleans()):
+            cfg["allow_redundant_or"] = True
+    elif k == 3:
+        cfg["infer_numeric_types_for_untyped_literals"] = False
+    return cfg
